@@ -11,15 +11,20 @@ open SymVerif SymVerif.Queries
 
 /-! ## heads with a meaning -/
 
-def semHeads : List String := ["Abs", "Sign", "Conjugate", "Floor", "Ceiling", "Sin", "Cos", "Log", "Max", "Min"]
+def semHeads : List String :=
+  ["Abs", "Sign", "Conjugate", "Floor", "Ceiling", "Sin", "Cos", "Log", "Tan", "Cot", "Csc", "Sec", "Max", "Min"]
 
 theorem appSem_some_head {h : String} {args : Option (List ℝ)} {v : ℝ} (hv : appSem h args = some v) :
     h ∈ semHeads := by
+  by_contra hn
+  simp only [semHeads, List.mem_cons, List.mem_nil_iff, or_false, not_or] at hn
+  obtain ⟨h1, h2, h3, h4, h5, h6, h7, h8, h9, h10, h11, h12, h13, h14⟩ := hn
   unfold appSem at hv
-  simp only [semHeads, List.mem_cons, List.mem_nil_iff, or_false]
   split at hv
-  · split_ifs at hv <;> simp_all
-  · split_ifs at hv <;> simp_all
+  · simp only [h1, h2, h3, h4, h5, h6, h7, h8, h9, h10, h11, h12, if_false] at hv
+    cases hv
+  · simp only [h13, h14, if_false] at hv
+    cases hv
   · cases hv
 
 theorem isLogic_app_none {ρ : String → ℝ} {h : String} {args : List Expr} (hl : isLogic (.app h args) = true) :
@@ -30,7 +35,7 @@ theorem isLogic_app_none {ρ : String → ℝ} {h : String} {args : List Expr} (
   | some v =>
     have := appSem_some_head hs
     simp only [semHeads, List.mem_cons, List.mem_nil_iff, or_false] at this
-    rcases this with rfl | rfl | rfl | rfl | rfl | rfl | rfl | rfl | rfl | rfl <;>
+    rcases this with rfl | rfl | rfl | rfl | rfl | rfl | rfl | rfl | rfl | rfl | rfl | rfl | rfl | rfl <;>
       simp [isLogic, setHeads, relHeads, boolHeads] at hl
 
 theorem appSem_none_args (h : String) : appSem h none = none := by
